@@ -113,7 +113,7 @@ def parse_spec(path):
             m = re.match(r"@([A-Za-z\-]+)\s*(.*)$", line)
             cur = [m.group(1), m.group(2), [], ln]
             dirs.append(cur)
-        elif line.startswith("#"):
+        elif line.startswith("# ") or line.rstrip() == "#":
             continue
         else:
             if cur is None:
